@@ -5,8 +5,8 @@ BIG = dict(name="big", module="Gen_Poly", constants=dict(K=1, MaxV=3, WithHoles=
 
 
 # long rectangles W x 5 with a vertex at every integer x of the top side (W + 4 coordinates, small coordinates): sizes around the
-# powers of two at which implementations like to switch strategy, with every remainder modulo 4 (BigN entry = 100000 + W)
-HUGE = dict(name="huge", module="Gen_Poly", constants=dict(K=1, MaxV=3, WithHoles=False, HoleMinA2=0, BigN="{100066, 101027, 101500, 104500}"),
+# powers of two (up to 9005 coordinates) at which implementations like to switch strategy, with every remainder modulo 4 (BigN entry = 100000 + W)
+HUGE = dict(name="huge", module="Gen_Poly", constants=dict(K=1, MaxV=3, WithHoles=False, HoleMinA2=0, BigN="{100066, 101027, 101500, 104500, 109001}"),
             invariants=["ShellOK"], workers=4)
 
 
